@@ -3,6 +3,7 @@ import Dashu.Proofs.Int.Hist
 import Dashu.Proofs.Int.HistX
 import Dashu.Proofs.Int.FloatFit
 import Dashu.Proofs.Int.FloatProducers
+import Dashu.Proofs.Int.FloatHist
 /-
   C05 — Equality, ordering and hashing follow the mathematical value in every type.
 
@@ -343,6 +344,74 @@ theorem float_cmp_of_results (B : Nat) (hB : 2 ≤ B) (digitsUb : Int → Nat)
       = specFCmp B (ofFloatRepr a) (ofFloatRepr b) :=
   reprCmp_of_fits B hB digitsUb hub a b pa pb ha hb
 
+-- ------------------------------------------------------------------ float histories
+
+/-- **float history theorem.**  Run ANY finite program of float producers — `from_parts`, `convert_int`,
+    `with_precision`, `neg`, `clone`, the `Context` methods `add sub mul sqr cubic div inv sqrt powi` (positive and
+    negative exponents) at ANY limited precision per instruction (the `FBig` operators are these at `Context::max` of
+    the operands), the operator product — over a register file of `(representation, precision)` pairs, results fed
+    back as operands, stopping at the first panic: every register ever produced is normalised (`FCanon`), finite,
+    and carries at most `precision + 1` digits.  (Sound `digits_ub/digits_lb` estimates as in `float_results_fit_more`;
+    any rounding mode, any coarse test, any square-root kernel: they do not enter.) -/
+theorem float_history (k : FCfg) (hB : 2 ≤ k.B) (hdub : Float.DubSound k.B k.dub) (hdlb : Float.DlbSound k.B k.dlb)
+    (ops : List FOp) (hok : ∀ op ∈ ops, op.Ok) (env : List FReg) (henv : ∀ x ∈ env, FGood k.B x) :
+    ∀ x ∈ frun k ops env, FGood k.B x :=
+  frun_good k hB hdub hdlb ops hok env henv
+
+/-- **C05 for float histories.**  For any two values ever produced by such a program — of whatever precisions, by
+    whatever operations — the comparison the code runs (`repr_cmp_same_base` with the precision and digit shortcuts,
+    any sound digit estimator) is the order of the exact values, it says `Equal` exactly when `==` holds, and `==`
+    holds exactly when the two representations are identical. -/
+theorem float_history_cmp (k : FCfg) (hB : 2 ≤ k.B) (hdub : Float.DubSound k.B k.dub) (hdlb : Float.DlbSound k.B k.dlb)
+    (ops : List FOp) (hok : ∀ op ∈ ops, op.Ok) (env : List FReg) (henv : ∀ x ∈ env, FGood k.B x)
+    (digitsUb : Int → Nat) (hub : ∀ s : Int, s.natAbs < k.B ^ digitsUb s)
+    (a b : FReg) (ha : a ∈ frun k ops env) (hb : b ∈ frun k ops env) :
+    reprCmpSameBase k.B digitsUb (ofFloatRepr a.r) (ofFloatRepr b.r) (some (a.p, b.p))
+      = specFCmp k.B (ofFloatRepr a.r) (ofFloatRepr b.r) ∧
+    (reprCmpSameBase k.B digitsUb (ofFloatRepr a.r) (ofFloatRepr b.r) (some (a.p, b.p)) = .eq ↔
+      fbigEq (ofFloatRepr a.r) (ofFloatRepr b.r) = true) ∧
+    (fbigEq (ofFloatRepr a.r) (ofFloatRepr b.r) = true ↔ a.r = b.r) := by
+  obtain ⟨ca, fa, da⟩ := float_history k hB hdub hdlb ops hok env henv a ha
+  obtain ⟨cb, fb, db⟩ := float_history k hB hdub hdlb ops hok env henv b hb
+  have h1 := float_cmp_of_results k.B hB digitsUb hub a.r b.r a.p b.p da db
+  refine ⟨h1, ?_, ?_⟩
+  · rw [h1]; exact (float_eq_iff_cmp_equal k.B hB _ _ ca cb).symm
+  · have ia : (ofFloatRepr a.r).isInfinite = false := by
+      simp only [FRepr.isInfinite, ofFloatRepr, Bool.and_eq_false_iff, bne_eq_false_iff_eq, beq_eq_false_iff_ne]
+      by_cases h : a.r.signif = 0
+      · exact Or.inr (fa h)
+      · exact Or.inl h
+    have ib : (ofFloatRepr b.r).isInfinite = false := by
+      simp only [FRepr.isInfinite, ofFloatRepr, Bool.and_eq_false_iff, bne_eq_false_iff_eq, beq_eq_false_iff_ne]
+      by_cases h : b.r.signif = 0
+      · exact Or.inr (fb h)
+      · exact Or.inl h
+    unfold fbigEq
+    simp only [ia, ib, Bool.false_and, Bool.false_eq_true, if_false, Bool.not_false, Bool.true_and, if_true,
+      Bool.and_eq_true, beq_iff_eq, ofFloatRepr]
+    constructor
+    · rintro ⟨h1, h2⟩
+      cases ha' : a.r; cases hb' : b.r
+      simp only [ha', hb'] at h1 h2
+      rw [h1, h2]
+    · intro h; rw [h]; exact ⟨rfl, rfl⟩
+
+-- non-vacuity: 1230 − 1 (precision 3) keeps the spare digit: register 2 = 1229·10^0 with 4 digits at precision 3;
+-- register 3 = 1·10^3 (precision 1) sits exactly at the threshold of the precision shortcut; register 4 = 1229/7 =
+-- 176 (precision 3), register 5 = its square root 13.3, register 6 = 1.229^-3… — all good, and cmp(reg 3, reg 2) = Less
+example :
+    let k : FCfg := ⟨10, .halfEven, Float.coarseNone, fun s => Float.digitsI 10 s, fun s => Float.digitsI 10 s, Float.natSqrtRem⟩
+    let prog : List FOp := [.fromParts 123 1, .fromParts 1 0, .sub 0 1 3, .fromParts 1 3, .fromParts 7 0, .div 2 4 3,
+      .sqrt 5 3, .powiNeg 2 3 2]
+    (∀ op ∈ prog, op.Ok) ∧
+    (frun k prog []).map (fun x => (x.r.signif, x.r.exp, x.p))
+      = [(123, 1, 3), (1, 0, 1), (1229, 0, 3), (1, 3, 1), (7, 0, 1), (176, 0, 3), (133, -1, 3), (54, -11, 2)] ∧
+    reprCmpSameBase 10 (fun s => Float.digitsI 10 s) ⟨1, 3⟩ ⟨1229, 0⟩ (some (1, 3)) = .lt := by
+  refine ⟨?_, by decide +kernel, by decide +kernel⟩
+  intro op hop
+  simp only [List.mem_cons, List.mem_nil_iff, or_false] at hop
+  rcases hop with rfl | rfl | rfl | rfl | rfl | rfl | rfl | rfl <;> simp [FOp.Ok]
+
 /-- the spare digit does occur — `1230 − 1` at precision 3 (HalfEven) is returned as the EXACT
     4-digit value `1229` (flag `none`): a value that violates the documented precondition of
     `FBig::from_repr` (`digits ≤ precision`, debug-asserted there) but still satisfies `FitsP1` -/
@@ -365,6 +434,18 @@ theorem float_normalize (B : Nat) (hB : 2 ≤ B) (r : FRepr) :
 theorem float_eq_iff_cmp_equal (B : Nat) (hB : 2 ≤ B) (a b : FRepr) (ha : FCanon B a) (hb : FCanon B b) :
     fbigEq a b = true ↔ specFCmp B a b = .eq :=
   fbigEq_iff B hB a b ha hb
+
+/-- **`cmp` returns `Equal` exactly when `==` holds** for floats of any precisions / rounding modes: for normalised
+    operands that keep `digits ≤ precision + 1` (what every producer above guarantees) the comparison the code
+    runs (`repr_cmp_same_base` with its shortcuts) says `Equal` iff the structural `==` does — iff the values are equal -/
+theorem float_cmp_equal_iff_eq (B : Nat) (hB : 2 ≤ B) (digitsUb : Int → Nat)
+    (hub : ∀ s : Int, s.natAbs < B ^ digitsUb s) (a b : FRepr) (ha : FCanon B a) (hb : FCanon B b)
+    (prec : Option (Nat × Nat))
+    (hprec : ∀ lp rp, prec = some (lp, rp) →
+      (lp ≠ 0 → a.signif.natAbs < B ^ (lp + 1)) ∧ (rp ≠ 0 → b.signif.natAbs < B ^ (rp + 1))) :
+    reprCmpSameBase B digitsUb a b prec = .eq ↔ fbigEq a b = true := by
+  rw [float_cmp B hB digitsUb hub a b prec hprec]
+  exact (float_eq_iff_cmp_equal B hB a b ha hb).symm
 
 -- ================================================================== rationals
 
